@@ -777,6 +777,13 @@ pub fn process<I: BufRead, O: Write>(
                 }
             }
         }
+        #[cfg(feature = "verif_hooks")]
+        crate::verif_hooks::cpp_step(
+            &filename,
+            line,
+            state as u8,
+            stack.iter().map(|s: &State| *s as u8).collect(),
+        );
         buf.clear();
     }
     Ok(lines)
